@@ -135,6 +135,9 @@ class TreeConverter(ast.NodeVisitor):
     return ["Name", node.id]
 
   def visit_Constant(self, node):
+    # Only constants that can be represented in JSON are supported (not bytes, complex, Ellipsis).
+    if not isinstance(node.value, (str, int, float, bool, type(None))):
+      return self.generic_visit(node)
     return ["Const", node.value]
 
   visit_NameConstant = visit_Constant
@@ -156,6 +159,9 @@ class TreeConverter(ast.NodeVisitor):
 
   def visit_Call(self, node):
     args = [self.visit(v) for v in node.args]
+    if any(v.arg is None for v in node.keywords):
+      # A `**kwargs` argument has no name to keep; it is not supported.
+      return self.generic_visit(node)
     if node.keywords:
       # E.g. foo(a, b=2, c=3) becomes [Call, foo, a, [keywords, [b, 2], [c, 3]]]
       args.append(['keywords'] + [[v.arg, self.visit(v.value)] for v in node.keywords])
